@@ -387,7 +387,54 @@ def _syntax_transformers():
                     x.id = mp[x.id]
             return helper, as_method
 
-    return {"extract-method: the first straight-line run of every function moved into a helper": ExtractBlocks,
+    class ExtractCompound(ExtractBlocks):
+        """the same refactor for runs that contain if / for / while statements (without return / yield inside)"""
+
+        @staticmethod
+        def _simple(s_):
+            if isinstance(s_, (ast.If, ast.For, ast.While)):
+                for x in ast.walk(s_):
+                    if isinstance(x, (ast.Return, ast.Yield, ast.YieldFrom, ast.Await, ast.Lambda, ast.NamedExpr, ast.FunctionDef, ast.Try, ast.With, ast.Starred,
+                                      ast.ListComp, ast.SetComp, ast.DictComp, ast.GeneratorExp, ast.Global, ast.Nonlocal)):
+                        return False
+                    if isinstance(x, ast.Call) and isinstance(x.func, ast.Name) and x.func.id in ("super", "locals", "vars"):
+                        return False
+                return True
+            return ExtractBlocks._simple(s_)
+
+        def _extract(self, fn, in_class):
+            # only runs that really contain a compound statement, and - because assignments may now be conditional - every
+            # local the run may assign and the rest reads is handed in as well when it exists before the run
+            body = fn.body
+            has = any(isinstance(s_, (ast.If, ast.For, ast.While)) and self._simple(s_) for s_ in body)
+            if not has:
+                return None
+            r = super()._extract(fn, in_class)
+            if r is None:
+                return None
+            helper, as_method = r
+            if not any(isinstance(s_, (ast.If, ast.For, ast.While)) for s_ in helper.body):
+                return r
+            call_stmt = next(s_ for s_ in fn.body if isinstance(getattr(s_, "value", None), ast.Call) and (getattr(s_.value.func, "attr", None) == helper.name or getattr(s_.value.func, "id", None) == helper.name))
+            outs = []
+            if isinstance(call_stmt, ast.Assign):
+                t = call_stmt.targets[0]
+                outs = [e.id for e in (t.elts if isinstance(t, ast.Tuple) else [t])]
+            idx = fn.body.index(call_stmt)
+            before = {a.arg for a in fn.args.args + fn.args.kwonlyargs}
+            for s_ in fn.body[:idx]:
+                for x in ast.walk(s_):
+                    if isinstance(x, ast.Name) and isinstance(x.ctx, ast.Store):
+                        before.add(x.id)
+            have = [a.arg for a in helper.args.args]
+            for n in outs:
+                if n in before and n not in have:
+                    helper.args.args.append(ast.arg(arg=n))
+                    call_stmt.value.args.append(ast.Name(id=n, ctx=ast.Load()))
+            return helper, as_method
+
+    return {"extract-method: the first run of statements with branches / loops of every function moved into a helper": ExtractCompound,
+            "extract-method: the first straight-line run of every function moved into a helper": ExtractBlocks,
             "extract-method, the helper written with its own parameter and local names": ExtractBlocksRenamed,
             "return / raise / continue followed by code rewritten with an else": ElseAbsorb, "conditional expressions written as if / else statements": IfExpToIf,
             "unused method / function added everywhere, every function documented": DeadCode, "logging.getLogger(__name__).debug('trace') added to every function and loop body": Logging,
